@@ -53,6 +53,11 @@ where
     }
     let sequential =
         manager.workers().current_num_threads() == 1 || manager.approx_num_inner_nodes() < 65536;
+    // The threshold is a tuning knob under simulation
+    #[cfg(oxidd_verif)]
+    let sequential = manager.workers().current_num_threads() == 1
+        || (manager.approx_num_inner_nodes() as u64)
+            < oxidd_core::verif::knob(oxidd_core::verif::site::KNOB_SORT_THRESHOLD, 65536);
     let (sort, update): (SortFn<M>, UpdateLevelFn<M>) = if sequential {
         (bubble_sort, update_levels_seq)
     } else {
@@ -312,6 +317,10 @@ where
         return;
     }
 
+    // Under simulation, use lock and condition variable types that hand
+    // control to the simulator instead of blocking
+    #[cfg(oxidd_verif)]
+    use crate::verif_sync as parking_lot;
     let state = parking_lot::Mutex::new(state);
     let cond = parking_lot::Condvar::new(); // task available or done
 
